@@ -49,7 +49,7 @@ CLAIMS = {
    "DESIGN.md section 4 C19, E8"),
  "C13": ("other",
    "def-use and dominance analysis on go/ssa of both sides of the status file: constants with the polarity of the writer's bool parameter vs. the reader's switch cases and what each case feeds into the device-policy variable; must-pass (post-dominance) search in do-approve",
-   "Decides the structural core: writer and reader agree on every status constant and its meaning (success accepted with its policy, failure not accepted, UPTODATE accepted, DIFF lists, sticky DIFF with the approved-since exception, compare consulted only when later than the accepted approve); the reader cannot abort and lists the zero value; all parts (code, ipv6, raw, bz2) are compared; in do-approve every path after the session updates the status and writes END:, and FAILED/return 1 derive exactly from the session result; the recorded policy is a parameter of the status writer and derives from the same resolution of `current` as the code file handed to the session; both sides of the code comparison are whole file contents; the log-line prefixes do-approve parses are produced and the info channel cannot be switched off from do-approve; every part is compared in every iteration; a failed approve resets an older compare verdict (one genuine defect found by this rule was repaired, fix: 4a58555). Not decided: sufficiency of the two-slot encoding over all histories.",
+   "Decides the structural core: writer and reader agree on every status constant and its meaning (success accepted with its policy, failure not accepted, UPTODATE accepted, DIFF lists, sticky DIFF with the approved-since exception, compare consulted only when later than the accepted approve); the reader cannot abort and lists the zero value; all parts (code, ipv6, raw, bz2) are compared; in do-approve every path after the session updates the status and writes END:, and FAILED/return 1 derive exactly from the session result; the recorded policy is a parameter of the status writer and derives from the same resolution of `current` as the code file handed to the session; both sides of the code comparison are whole file contents; the log-line prefixes do-approve parses are produced and the info channel cannot be switched off from do-approve; every part is compared in every iteration; package status reads and writes only the device's status file (no backup copy that could be older than the latest observation); a failed approve resets an older compare verdict (one genuine defect found by this rule was repaired, fix: 4a58555). Not decided: sufficiency of the two-slot encoding over all histories.",
    "Trusted: go/ssa; shared struct type makes field names agree. Histories, clocks and file removal are runtime matters.",
    "DESIGN.md section 4 C13"),
  "C09": ("other",
@@ -59,7 +59,7 @@ CLAIMS = {
    "DESIGN.md section 4 C09, E6"),
  "C15": ("other",
    "typestate / ordering rules by dominance and reachability on go/ssa of package ios (who-may-call of the change sender over the call graph, stores to the reloadActive flag, def-use chain banner-strip -> echo check, accumulation of the re-arm flag)",
-   "Decides the structural core on every run: every IOS change command is sent by the one sender whose call sites are all dominated by arming the reload and a deferred cancel; configuration mode lies inside the guard; write memory is a plain call after the guarded function returned (cancel has run), nothing is sent in between; reloadActive is raised/lowered only where reload in N / reload cancel are sent; banners are stripped before the echo check; after waiting for the asynchronous SHUTDOWN ABORTED text the prompt behind it is consumed before the next command is sent; the one-minute matcher accepts both spellings IOS prints and the one-minute verdict derives from the stripped banner and is accumulated over both halves of a joined command and triggers the re-arm; the device's answer to both halves of every change command decides over the abort on every path (the verdict is not overwritten), so write memory is not reached after a rejected command. One genuine defect found by this rule was repaired (fix: 6536eea). Not decided: all byte offsets of an asynchronous banner.",
+   "Decides the structural core on every run: every IOS change command is sent by the one sender whose call sites are all dominated by arming the reload and a deferred cancel; configuration mode lies inside the guard; write memory is a plain call after the guarded function returned (cancel has run), nothing is sent in between; reloadActive is raised/lowered only where reload in N / reload cancel are sent; banners are stripped before the echo check; after waiting for the asynchronous SHUTDOWN ABORTED text the prompt behind it is consumed before the next command is sent; the commands and patterns of the reload dialogue are among the audited ones (the extra prompt is awaited at the end of the buffer); the one-minute matcher accepts both spellings IOS prints and the one-minute verdict derives from the stripped banner and is accumulated over both halves of a joined command and triggers the re-arm; the device's answer to both halves of every change command decides over the abort on every path (the verdict is not overwritten), so write memory is not reached after a rejected command. One genuine defect found by this rule was repaired (fix: 6536eea). Not decided: all byte offsets of an asynchronous banner.",
    "Trusted: go/ssa, call graph; banner forms are those bannerRe matches.",
    "DESIGN.md section 4 C15"),
  "C03": ("other",
